@@ -163,7 +163,7 @@ def gen_sim(rng, i):
     if i % 9 == 4: kh, kw = rng.choice([(3, 4), (1, 2), (5, 6), (2, 3), (4, 4), (2, 1)])     # rejected kernels
     even = kh % 2 == 0 or kw % 2 == 0
     edge = (i % 5 in (1, 3))                # a mask touching the frame edge: apply_mask pads the dataset
-    H = rng.randint(kh + 1, 6 if edge else 8); W = rng.randint(kw + 1, 6 if edge else 8)
+    H = rng.randint(kh + 1, max(kh + 1, 6 if edge else 8)); W = rng.randint(kw + 1, max(kw + 1, 6 if edge else 8))
     normalize = bool(rng.random() < 0.5)
     sky = Fraction(0) if i % 4 == 3 else rng.choice([Fraction(1, 4), Fraction(1), Fraction(5, 2), Fraction(10), Fraction(75, 2),
                                                      Fraction(100), Fraction(1, 2 ** 20), Fraction(3, 2 ** 30)])
@@ -439,6 +439,30 @@ def run_hist(aa, inp):
         _ = np.array(arr.native)
         for j in range(H * W):
             if rng.random() < 0.4: nat[j // W][j % W] = Fraction(rng.randint(-9, 9)) * vs; arr[j] = float(nat[j // W][j % W])
+    # results handed out earlier must not change when the same objects are used again (no shared output buffers)
+    for what, obj, want in kept:
+        if fracs(obj.slim if hasattr(obj, "slim") else obj) != want: bad.append(what + " changed after later calls")
+    kept = []       # (they share the Mask2D object that is edited next)
+    # the SAME Kernel2D and Mask2D objects edited in place by the user, then used for a new whole-frame convolution and a NEW Convolver
+    # (the convolver built before the edit is not used again: its frame tables are built once per (mask, kernel) by design)
+    if c is not None:
+        K = [list(r) for r in K]; m = [list(r) for r in m]
+        for j in range(kh * kw):
+            if rng.random() < 0.5: K[j // kw][j % kw] = Fraction(rng.randint(-3, 3)) * ks; kernel[(j // kw, j % kw) if kernel.store_native else j] = float(K[j // kw][j % kw])
+        cells = [(y, x) for y in range(kh // 2, H - kh // 2) for x in range(kw // 2, W - kw // 2)]
+        for (y, x) in rng.sample(cells, min(len(cells), 2)):
+            m[y][x] = not m[y][x]
+            if all(all(r) for r in m): m[y][x] = False
+            mask[y, x] = m[y][x]
+        kflat = [v for r in K for v in r]; mflat = [Fraction(int(b)) for r in m for b in r]
+        nun = sum(1 for r in m for b in r if not b)
+        res = call_res(kernel.convolved_array_from, array=arr)
+        o = ("ok", fracs(res[1].slim)) if res[0] == "ok" else res
+        cases.append(f"(KWhole {cmask([[False] * W for _ in range(H)])} {cqm(nat)} {cqm(K)} {cres(o, cqv)})")
+        c3 = aa.Convolver(mask=mask, kernel=kernel)
+        bm3 = mask.derive_mask.blurring_from(kernel_shape_native=(kh, kw)); bml3 = [[bool(b) for b in r] for r in np.array(bm3)]
+        img4, bimg4 = vals(nun), vals(int(bm3.pixels_in_mask))
+        conv(c3, m, K, build_array(aa, img4, mask, m, "plain", rng), img4, build_array(aa, bimg4, bm3, bml3, "plain", rng), bimg4, "step 10")
     nat2 = [[Fraction(rng.randint(-9, 9)) * vs for _ in range(W)] for _ in range(H)]
     marr = build_array(aa, [nat2[y][x] for y in range(H) for x in range(W) if not m[y][x]], mask, m, how["image"], rng)
     res = call_res(kernel.convolved_array_with_mask_from, array=np.array([fl(r) for r in nat2]), mask=mask) if inp["seed"] % 2 else \
@@ -447,9 +471,6 @@ def run_hist(aa, inp):
     o = ("ok", fracs(res[1].slim)) if res[0] == "ok" else res
     cases.append(f"(KWhole {cmask(m)} {cqm(nat2)} {cqm(K)} {cres(o, cqv)})")
     unchanged("kernel", kernel.native, kflat); unchanged("mask", np.array(mask), mflat)
-    # results handed out earlier must not change when the same objects are used again (no shared output buffers)
-    for what, obj, want in kept:
-        if fracs(obj.slim if hasattr(obj, "slim") else obj) != want: bad.append(what + " changed after later calls")
     nontrivial = nun >= 2 and sum(1 for v in kflat if v != 0) > 1
     return {"coq": cases[0], "extra_coq": cases[1:], "py_ok": (False if bad else None), "kind": "hist", "nontrivial": nontrivial,
             "out": {"steps": len(cases), "modified": bad}, "detail": {"modified": bad}}
